@@ -10,6 +10,11 @@
                                           satisfies the conditioning predicate [well_conditioned]
      "ill-conditioned under-estimate ..." the same on a matrix that fails the predicate
                                           (the known IEEE-level gap, see DiscIEEE.v)
+     "[ill-conditioned ]under-estimate ... impl-scale(real)=.."  the same with the implementation's OWN
+                                          dm.scale(real score) instead of the model's scale
+     "[negative-zero-factor ]threshold-transfer-lost ..."   a position whose real score meets a threshold t (IEEE <= on the
+                                          observed bit patterns) has a byte score below the implementation's
+                                          own dm.scale(t)   (checker first_bad_impl, DiscImplCheck.v)
      "backend-mismatch ..."               two arms / entry points disagree on a byte score
    DIFF: the implementation differs from the bit-exact binary32 / u8 model. *)
 open Disc_model
@@ -135,25 +140,54 @@ let () =
                 if v <> "U" && v <> "P" && ref_part <> "P" && v <> ref_part then
                   set_pf "backend-mismatch sA differs from generic");
                (* the property on the implementation's numbers *)
+               let u8s_of key =
+                 if key = "ds" then (try Some (List.map int_of_string (split ',' (oget "ds"))) with _ -> None)
+                 else match parse_scores (oget key) with
+                   | Some (rows, _, cells) when rows > 0 ->
+                       (try Some (List.map (fun i -> cells.((i mod rows) * 32 + i / rows)) positions) with _ -> None)
+                   | _ -> None in
+               let sources = ["ds"; "gen"; "avx"; "dG"; "dS"; "dA"] in
+               let tag () = if well_conditioned mat ifac then "" else "ill-conditioned " in
                if in_theorem && List.length ireals = npos then begin
+                 (* (a) scale recomputed by the model from the observed factor / offset *)
                  let check key =
-                   let u8s =
-                     if key = "ds" then (try Some (List.map int_of_string (split ',' (oget "ds"))) with _ -> None)
-                     else match parse_scores (oget key) with
-                       | Some (rows, _, cells) when rows > 0 ->
-                           (try Some (List.map (fun i -> cells.((i mod rows) * 32 + i / rows)) positions) with _ -> None)
-                       | _ -> None in
-                   match u8s with
+                   match u8s_of key with
                    | Some u when List.length u = npos ->
                        (match f_first_bad ifac ioff O (List.map2 (fun b r -> (z_of_int b, r)) u ireals) with
                         | None -> ()
                         | Some i ->
                             let i = int_of_nat i in
-                            let tag = if well_conditioned mat ifac then "" else "ill-conditioned " in
-                            set_pf (Printf.sprintf "%sunder-estimate pos=%d via=%s u8=%d scale(real)=%d" tag i key
+                            set_pf (Printf.sprintf "%sunder-estimate pos=%d via=%s u8=%d scale(real)=%d" (tag ()) i key
                                       (List.nth u i) (int_of_z (f_scale_with ifac ioff (List.nth ireals i)))))
                    | _ -> () in
-                 List.iter check ["ds"; "gen"; "avx"; "dG"; "dS"; "dA"]
+                 List.iter check sources;
+                 (* (b) the implementation's OWN images: ss = dm.scale(real score of position i),
+                    sc = dm.scale(threshold j); main clause and threshold transfer
+                    (first_bad_impl, proved sound in DiscImplProofs.v) *)
+                 let ints key = (try Some (List.map int_of_string (split ',' (oget key))) with _ -> None) in
+                 (match ints "ss", ints "sc" with
+                  | Some iss, Some isc when List.length iss = npos && List.length isc = List.length thr ->
+                      let thrp = List.map2 (fun t s -> (t, z_of_int s)) thr isc in
+                      let check_impl key =
+                        match u8s_of key with
+                        | Some u when List.length u = npos ->
+                            let obs = List.map2 (fun (b, r) s -> ((z_of_int b, r), z_of_int s)) (List.combine u ireals) iss in
+                            (match f_first_bad_impl O thrp obs with
+                             | None -> ()
+                             | Some (FailPos i) ->
+                                 let i = int_of_nat i in
+                                 set_pf (Printf.sprintf "%sunder-estimate pos=%d via=%s u8=%d impl-scale(real)=%d real=%d" (tag ()) i key
+                                           (List.nth u i) (List.nth iss i) (bits_of (List.nth ireals i)))
+                             | Some (FailThr (i, j)) ->
+                                 let i = int_of_nat i and j = int_of_nat j in
+                                 (* factor -0.0 (sign bit set, to_discrete on zero matrices of mixed signs): scale is
+                                    not monotone there, C08_threshold_transfer_f32_refuted_negzero / F14b *)
+                                 let ntag = if (not (factor_sign_clear ifac)) && bits_of ifac = 0x80000000 then "negative-zero-factor " else "" in
+                                 set_pf (Printf.sprintf "%sthreshold-transfer-lost pos=%d via=%s u8=%d real=%d >= thr=%d but impl-scale(thr)=%d" ntag i key
+                                           (List.nth u i) (bits_of (List.nth ireals i)) (bits_of (List.nth thr j)) (List.nth isc j)))
+                        | _ -> () in
+                      List.iter check_impl sources
+                  | _ -> ())
                end)
         with e -> set_df ("driver-exception " ^ Printexc.to_string e));
         (match !propfail, !diff with
